@@ -3,32 +3,57 @@
    json.loads (json.dumps v) = v for such values is the external-library hypothesis validated by
    suite W-json / R-json (the implementation's file is parsed and compared with [json_write]). *)
 From Coq Require Import List Bool String ZArith.
-From FM Require Import Base.Result Model.FM Model.PFM Format.Json Proofs.JsonFacts Proofs.C09Facts Proofs.JsonVariant Proofs.JsonExtra.
+From FM Require Import Base.Result Model.FM Model.PFM Format.Json Proofs.C16Facts Proofs.JsonFacts Proofs.C09Facts Proofs.JsonVariant Proofs.JsonExtra.
 Import ListNotations.
 Local Open Scope list_scope.
 
+(* CHANGED STATEMENTS (reader fix: a relation with "children": [] is a ParsingException).  The fragment predicate
+   [json_ok] allows a relation without children, which the writer writes and the reader now rejects, so the three
+   statements below were FALSE as they stood:
+     Theorem C05_roundtrip : forall m, json_ok m = true ->
+       exists d, json_write m = Ok d /\ json_read d = Ok (annotate_fm m).
+     Theorem C05_roundtrip_model : forall m, json_ok m = true ->
+       exists d pm, json_write m = Ok d /\ json_read d = Ok pm /\ erase_fm pm = m.
+     Theorem C05_cycles : forall n m, json_ok m = true -> iter_cycle n m = Ok m.
+   (counterexample: C05_old_statements_false).  One hypothesis is added to each: [rels_nonempty (root m)]
+   (C16Facts.v, the hypothesis of C16_max_depth: every relation of the tree has a child); it is necessary as well
+   (C05_roundtrip_needs_nonempty). *)
+
 (* one cycle: same names, tree, abstract flags (as Booleans), attributes, named constraints —
    plain equality, no normalisation; the reader's back pointers are right as well *)
-Theorem C05_roundtrip : forall m, json_ok m = true ->
+Theorem C05_roundtrip : forall m, json_ok m = true -> rels_nonempty (root m) ->
   exists d, json_write m = Ok d /\ json_read d = Ok (annotate_fm m).
 Proof. exact json_roundtrip. Qed.
 Print Assumptions C05_roundtrip.
 
-Theorem C05_roundtrip_model : forall m, json_ok m = true ->
+Theorem C05_roundtrip_model : forall m, json_ok m = true -> rels_nonempty (root m) ->
   exists d pm, json_write m = Ok d /\ json_read d = Ok pm /\ erase_fm pm = m.
 Proof. exact json_roundtrip_erased. Qed.
 Print Assumptions C05_roundtrip_model.
 
 (* any number of cycles changes nothing *)
-Theorem C05_cycles : forall n m, json_ok m = true -> iter_cycle n m = Ok m.
+Theorem C05_cycles : forall n m, json_ok m = true -> rels_nonempty (root m) -> iter_cycle n m = Ok m.
 Proof. exact json_cycles. Qed.
 Print Assumptions C05_cycles.
+
+Theorem C05_roundtrip_needs_nonempty : forall m d,
+  json_write m = Ok d -> json_read d = Ok (annotate_fm m) -> rels_nonempty (root m).
+Proof. exact json_roundtrip_needs_nonempty. Qed.
+Print Assumptions C05_roundtrip_needs_nonempty.
+Example C05_old_statements_false :
+  json_ok ex_empty_rel = true
+  /\ (exists d, json_write ex_empty_rel = Ok d /\ json_read d = Err ParsingException)
+  /\ json_cycle ex_empty_rel = Err ParsingException
+  /\ ~ rels_nonempty (root ex_empty_rel).
+Proof. exact json_roundtrip_old_false. Qed.
+Print Assumptions C05_old_statements_false.
 
 (* parse_json and the file path are the same function of the loaded value: definitional in the model
    (both call json_read); suite R-json compares the two entry points of the implementation *)
 
-Example C05_nonvacuous : json_ok ex_model = true /\ iter_cycle 3 ex_model = Ok ex_model.
-Proof. vm_compute. split; reflexivity. Qed.
+Example C05_nonvacuous :
+  json_ok ex_model = true /\ rels_nonempty (root ex_model) /\ iter_cycle 3 ex_model = Ok ex_model.
+Proof. split; [vm_compute; reflexivity|]. split; [repeat constructor; discriminate|vm_compute; reflexivity]. Qed.
 Print Assumptions C05_nonvacuous.
 
 (* objects are read by key, not by position (JsonVariant.v): the entries of any object with distinct keys may be
